@@ -293,6 +293,54 @@ pub fn var_matrix_docs() -> Vec<String> {
     out
 }
 
+/// Small projects with imported fragments: (files [(path, text)], root first).
+pub fn import_projects() -> Vec<Vec<(String, String)>> {
+    let mut out = vec![];
+    let main_imports = ["#import A from \"./lib/a.graphql\"\n", "#import * from \"./lib/a.graphql\"\n", "#import A, A2 from \"./lib/a.graphql\"\n", "#import A2 from \"./lib/a.graphql\"\n#import A from \"lib/../lib/a.graphql\"\n"];
+    for mi in main_imports {
+        for import_b in [false, true] {
+            for a_spreads_b in [false, true] {
+                for local in [false, true] {
+                    for twice in [false, true] {
+                        for mask in 0..8u8 {
+                            let (sa, sb, sl) = (mask & 1 != 0, mask & 2 != 0, mask & 4 != 0);
+                            if (sb && !import_b) || (sl && !local) {
+                                continue;
+                            }
+                            let mut main = String::from(mi);
+                            if import_b {
+                                main.push_str("#import B from \"./lib/b.graphql\"\n");
+                            }
+                            let mut body = String::from("id");
+                            if sa {
+                                body.push_str(" ...A");
+                            }
+                            if sb {
+                                body.push_str(" friends { ...B }");
+                            }
+                            if sl {
+                                body.push_str(" ...L");
+                            }
+                            main.push_str(&format!("query Q {{ u {{ {body} }} }}\n"));
+                            if twice {
+                                // a second operation reaching the imported fragment through a nested selection
+                                main.push_str("query R { users(ids: []) { best { ...A } } }\n");
+                            }
+                            if local {
+                                main.push_str("fragment L on User { kind ...A }\n");
+                            }
+                            let a = format!("{}fragment A on User {{ name{} }}\nfragment A2 on User {{ age }}\n", if a_spreads_b { "#import B from \"./b.graphql\"\n" } else { "" }, if a_spreads_b { " best { ...B }" } else { "" });
+                            let b = "fragment B on User { born }\nfragment Unused on User { id }\n".to_string();
+                            out.push(vec![("/p/main.graphql".to_string(), main), ("/p/lib/a.graphql".to_string(), a), ("/p/lib/b.graphql".to_string(), b)]);
+                        }
+                    }
+                }
+            }
+        }
+    }
+    out
+}
+
 pub fn run(args: &RunArgs) -> i32 {
     let rep = Reporter::new("C12", &args.tier);
     crate::util::install_hook();
@@ -411,6 +459,106 @@ pub fn run(args: &RunArgs) -> i32 {
             Err(e) => rep.report(Violation { key: "machinery.var_matrix".into(), what: format!("R-PARSE cannot read {:?}: {e}", vm[i]), case: json!({}) }),
         }
     });
+    // projects with imported fragments (in-process printers with imports resolved, and the loader's multi-file protocol)
+    let import_cases = AtomicU64::new(0);
+    let import_docs = AtomicU64::new(0);
+    let projects = import_projects();
+    crate::explore::par_for(projects.len(), args.threads, |i| {
+        let files = &projects[i];
+        let case = |route: &str, extra: J| json!({"files": files, "route": route, "detail": extra});
+        // reference: the root's own definitions + every fragment of the other files, as one document
+        let mut combined = ExecDoc::default();
+        let Ok(root_doc) = crate::rparse::parse_exec(&files[0].1) else { return };
+        let own: Vec<ExecDef> = root_doc.defs.iter().filter(|d| !matches!(d, ExecDef::Import { .. })).cloned().collect();
+        combined.defs.extend(own.iter().cloned());
+        for f in &files[1..] {
+            if let Ok(d) = crate::rparse::parse_exec(&f.1) {
+                combined.defs.extend(d.defs.into_iter().filter(|d| matches!(d, ExecDef::Frag { .. })));
+            }
+        }
+        let s = subject_schema();
+        let ops: Vec<(PathBuf, String)> = files.iter().map(|(p, t)| (PathBuf::from(p), t.clone())).collect();
+        let outs = catch(|| {
+            let loaded = pipeline::load_operations(&ops, 1).map_err(|f| format!("{:?}", f.diags))?;
+            pipeline::check_operations(&s.schema, &loaded).map_err(|f| format!("rejected: {:?}", f.diags.iter().map(|d| d.kind.clone()).collect::<Vec<_>>()))?;
+            let js = pipeline::operation_js(&loaded[0].1, &pipeline::default_config());
+            let mut cfg = crate::c01::config_with_date();
+            cfg.generate.mode = nitrogql_config_file::GenerateMode::StandaloneTS4_0;
+            let ts = pipeline::operation_dts(&s.schema, &loaded[0].1, &cfg, "./schema.js").buffer;
+            Ok::<_, String>((js, ts))
+        });
+        let (js, ts) = match outs {
+            Err(p) => return rep.report(Violation { key: format!("imports.panic@{}", p.key()), what: format!("panic at {}: {}", p.site, p.msg), case: case("printer", json!({})) }),
+            Ok(Err(_)) => return, // not an accepted project (C13 / C04 own that)
+            Ok(Ok(x)) => x,
+        };
+        import_cases.fetch_add(1, Ordering::Relaxed);
+        let my = i;
+        let loader_js = match pool.ask(my, &json!({"text": "", "files": files.iter().map(|(p, t)| json!([p, t])).collect::<Vec<_>>()})) {
+            crate::worker::Answer::Done(v) => match v["js"].as_str() {
+                Some(s) => Some(s.to_string()),
+                None => {
+                    rep.report(Violation { key: "imports.loader_fails".into(), what: format!("the loader fails on a project the CLI pipeline accepts: {}", v["error"]), case: case("loader-abi", json!({})) });
+                    None
+                }
+            },
+            crate::worker::Answer::Died { panic, status } => {
+                rep.report(Violation { key: "imports.loader_trap".into(), what: format!("loader died: {panic:?} {status}"), case: case("loader-abi", json!({})) });
+                None
+            }
+        };
+        let mut routes = vec![("js-printer", js), ("standalone-ts", ts)];
+        if let Some(l) = loader_js {
+            routes.push(("loader-abi", l));
+        }
+        for (route, out) in routes {
+            let consts = match const_documents(&out) {
+                Ok(c) => c,
+                Err(e) => {
+                    rep.report(Violation { key: format!("imports.unreadable_output:{route}"), what: format!("cannot read the emitted module: {e}"), case: case(route, json!({"output": out})) });
+                    continue;
+                }
+            };
+            // one constant per definition of the resolved document: the file's own definitions and the
+            // imported fragments; each constant is identified by the definition its document starts with
+            let ident = |d: &ExecDef| match d {
+                ExecDef::Op { kind, name, .. } => format!("{} {}", kind.kw(), name.as_ref().map_or("", |n| n.s.as_str())),
+                ExecDef::Frag { name, .. } => format!("fragment {}", name.s),
+                _ => "import".into(),
+            };
+            let mut seen_defs = BTreeSet::new();
+            for (cname, v, _) in consts.iter() {
+                import_docs.fetch_add(1, Ordering::Relaxed);
+                let g = match gjs_document(v) {
+                    Ok(g) => g,
+                    Err(e) => {
+                        rep.report(Violation { key: format!("imports.not_a_graphql_js_document[{route}]"), what: format!("{cname}: {e}"), case: case(route, json!({"constant": cname, "json": v})) });
+                        continue;
+                    }
+                };
+                let Some(first) = g.defs.first() else {
+                    rep.report(Violation { key: format!("imports.empty_document[{route}]"), what: format!("{cname}: no definitions"), case: case(route, json!({"constant": cname})) });
+                    continue;
+                };
+                let id = ident(first);
+                let Some(di) = combined.defs.iter().position(|d| ident(d) == id) else {
+                    rep.report(Violation { key: format!("imports.constant_for_unknown_definition[{route}]"), what: format!("{cname} starts with `{id}`, which no file of the project defines"), case: case(route, json!({"constant": cname})) });
+                    continue;
+                };
+                if !seen_defs.insert(id.clone()) {
+                    rep.report(Violation { key: format!("imports.definition_emitted_twice[{route}]"), what: format!("two constants start with `{id}`"), case: case(route, json!({"output": out})) });
+                }
+                if let Err((k, w)) = compare(&combined, di, &g) {
+                    rep.report(Violation { key: format!("imports.{k}[{route}]"), what: format!("{cname}: {w}"), case: case(route, json!({"constant": cname, "json": v})) });
+                }
+            }
+            for d in &own {
+                if !seen_defs.contains(&ident(d)) {
+                    rep.report(Violation { key: format!("imports.definition_without_constant[{route}]"), what: format!("no constant for `{}` of the file itself", ident(d)), case: case(route, json!({"output": out})) });
+                }
+            }
+        }
+    });
     let cov = json!({
         "states": distinct.len(),
         "transitions": stats.choice_edges,
@@ -422,10 +570,13 @@ pub fn run(args: &RunArgs) -> i32 {
         "explorer": stats_json(&stats),
         "documents_checked": checked.load(Ordering::Relaxed),
         "variable_definition_matrix_documents": matrix_docs.load(Ordering::Relaxed),
+        "import_projects": projects.len(),
+        "import_projects_accepted_and_compared": import_cases.load(Ordering::Relaxed),
+        "import_project_documents_compared": import_docs.load(Ordering::Relaxed),
         "embedded_documents_compared": compared.load(Ordering::Relaxed),
         "samples": [sample.lock().unwrap().clone().unwrap_or_default()],
     });
-    rep.finish(cov, vec!["R-GJS: independent reader of the graphql-js AST JSON shape; values compared verbatim, positions ignored, fragment order ignored".into(), "imported fragments are covered through C13 + the loader histories of C19; here all fragments are local".into()])
+    rep.finish(cov, vec!["R-GJS: independent reader of the graphql-js AST JSON shape; values compared verbatim, positions ignored, fragment order ignored".into(), "imported fragments: explicit enumeration of three-file projects (import forms x transitive import x local fragment x spread subsets x second operation) through the printers with imports resolved and through the loader's multi-file protocol".into()])
 }
 
 /// worker: emit_js for a single-file task
@@ -442,6 +593,8 @@ pub fn child_loader() -> i32 {
         // a fresh thread per request: fresh CONFIG / TASKS thread-locals
         let text = text.to_string();
         let cfg = cfg.map(|s| s.to_string());
+        // multi-file request: [[path, text], ...], the first one is the root
+        let files: Vec<(String, String)> = req["files"].as_array().map(|a| a.iter().map(|f| (f[0].as_str().unwrap_or("").to_string(), f[1].as_str().unwrap_or("").to_string())).collect()).unwrap_or_default();
         std::thread::spawn(move || {
             if let Some(c) = cfg {
                 let (p, l) = abi(&c);
@@ -451,8 +604,10 @@ pub fn child_loader() -> i32 {
                     return json!({"config_error": true});
                 }
             }
-            let (fp, fl) = abi("/p/a.graphql");
-            let (sp, sl) = abi(&text);
+            let root = files.first().map(|f| f.0.clone()).unwrap_or_else(|| "/p/a.graphql".to_string());
+            let root_text = files.first().map(|f| f.1.clone()).unwrap_or(text);
+            let (fp, fl) = abi(&root);
+            let (sp, sl) = abi(&root_text);
             let id = graphql_loader::initiate_task(fp, fl, sp, sl);
             unsafe {
                 graphql_loader::free_string(fp, fl);
@@ -460,6 +615,31 @@ pub fn child_loader() -> i32 {
             }
             if id == 0 {
                 return json!({"error": res()});
+            }
+            // the bundler loaders' protocol: supply every file the task asks for until it asks for none
+            for _ in 0..16 {
+                if !graphql_loader::get_required_files(id) {
+                    return json!({"error": res()});
+                }
+                let wanted: Vec<String> = res().split('\n').filter(|s| !s.is_empty()).map(|s| s.to_string()).collect();
+                if wanted.is_empty() {
+                    break;
+                }
+                for w in wanted {
+                    let Some((_, t)) = files.iter().find(|f| f.0 == w) else {
+                        return json!({"error": format!("the loader asks for {w}, which the project does not have")});
+                    };
+                    let (fp, fl) = abi(&w);
+                    let (sp, sl) = abi(t);
+                    let ok = graphql_loader::load_file(id, fp, fl, sp, sl);
+                    unsafe {
+                        graphql_loader::free_string(fp, fl);
+                        graphql_loader::free_string(sp, sl);
+                    }
+                    if !ok {
+                        return json!({"error": res()});
+                    }
+                }
             }
             let ok = graphql_loader::emit_js(id);
             let out = res();
